@@ -68,7 +68,9 @@ CHECKS["C01"] = dict(
               "replayed on a mini node across real process restarts; real export / import (every request kind an import sends) "
               "judged through restart and compaction; recorded random histories validated by TLC (Trace_StateMachine)",
     text="TLC checks that snapshot + log-suffix replay reproduces the fold of the applied requests for every placement of "
-         "compactions, interrupted snapshot attempts and restarts, over ALL seven components (configs with type / description / "
+         "compactions, interrupted snapshot attempts and restarts, over ALL seven components (namespaces as a client is served "
+         "them: the user namespaces of the snapshot plus the namespaces in use by a configuration - ListedNs, with a config key "
+         "inside a user namespace in the simulation; configs with type / description / "
          "history, namespaces, users, sequences, persistent instances, replicated cache, MCP tool specs and servers with the "
          "derived reference semantics); named deviations (stale snapshot tail, non-atomic capture, two MCP bookkeeping "
          "deviations) are negative controls. Generated behaviours are executed on the real node wiring: after every step the "
@@ -316,7 +318,9 @@ CHECKS["C18"] = dict(
          "on every observation.",
     note="endpoint table is hand-written and cross-checked against the route inventory; data routes not in the table are "
          "listed in the evidence (MCP, some v1 naming writes); an empty answer instead of a refusal is accepted (nothing "
-         "leaks, nothing changes); privilege groups with enabled=true only", design_ref="5 C18")
+         "leaks, nothing changes); privilege groups with enabled=true only; two of three privilege shapes use the session in its "
+         "replicated / restored form (the Raft entry's JSON and the cache's snapshot encoding, decoded again), one the "
+         "in-memory value of the login node", design_ref="5 C18")
 
 NOT_YET = {}
 
